@@ -60,12 +60,31 @@ def writer_sweep(prog: Program, rep: Report) -> None:
                     rep.ok("R1.1", "writer passed to a closing helper", where, "handed to a repository function whose parameter is only tested or used through close/wait_closed/is_closing")
                 else:
                     rep.bad("R1.1", "writer escapes", where, f"stream writer escapes into `{ast.unparse(par) if par is not None else '?'}`: writes can no longer be enumerated")
-            if m.in_package and isinstance(node, ast.Call) and isinstance(node.func, ast.Attribute) and node.func.attr in SEND_METHODS:
-                recv = node.func.value
-                if not (isinstance(recv, ast.Attribute) and recv.attr == "_writer" and node.func.attr == "write"):
-                    rep.bad("R1.1", f"foreign sender .{node.func.attr}", f"{m.relpath}:{node.lineno}",
-                            f"`{ast.unparse(node)[:80]}` sends bytes outside writer.write(unhexlify(signed))")
     rep.analysed["write_sites"] = n_write_sites
+
+
+def foreign_sender_sweep(prog: Program, rep: Report, resolved_sites: set) -> None:
+    """R1.1a, second half: no other send primitive is called in the package.  A call `x.send(...)` whose callee the
+    interpreter resolved to a repository function on an analysed path is that function (its own writes are judged like
+    all others); a site never reached by an analysed path whose method name a repository class defines cannot be told
+    from a socket call by name alone (undecided); anything else named like a send primitive is one."""
+    repo_methods = {name for m in prog.all_modules(True) for ci in m.classes.values() for name in ci.methods}
+    for m in prog.all_modules(True):
+        if not m.in_package:
+            continue
+        for node in ast.walk(m.tree):
+            if isinstance(node, ast.Call) and isinstance(node.func, ast.Attribute) and node.func.attr in SEND_METHODS:
+                recv = node.func.value
+                if isinstance(recv, ast.Attribute) and recv.attr == "_writer" and node.func.attr == "write":
+                    continue
+                site = f"{m.relpath}:{node.lineno}"
+                if site in resolved_sites:
+                    rep.ok("R1.1", f"call .{node.func.attr} is a repository method", site, "resolved by the interpreter on an analysed path")
+                elif node.func.attr in repo_methods:
+                    rep.undecided("R1.1", f"sender .{node.func.attr}?", site, f"`{ast.unparse(node)[:80]}`: a repository class defines .{node.func.attr}() but no analysed path reaches this call, so it cannot be told from a socket call")
+                else:
+                    rep.bad("R1.1", f"foreign sender .{node.func.attr}", site,
+                            f"`{ast.unparse(node)[:80]}` sends bytes outside writer.write(unhexlify(signed))")
 
 
 def _name_uses_enumerable(fn: ast.AST, name: str) -> bool:
@@ -151,9 +170,11 @@ def run(prog: Program, rep: Report, tier: str) -> None:
     seen: Dict[Tuple[str, T.Term], str] = {}
     funcs = set()
     total_paths = 0
+    resolved_sites: set = set()
     for op in A.OPERATIONS:
         I, outs, fi = A.run_operation(prog, op, reply_minlen={0: 12})    # A1
         funcs |= set(I.functions_visited)
+        resolved_sites |= {w.split(" ")[0] for w, _k in I.calls_resolved}
         total_paths += len(outs)
         where_op = f"{loc(fi, fi.node)} {fi.qualname}"
         bin_err = []
@@ -173,6 +194,7 @@ def run(prog: Program, rep: Report, tier: str) -> None:
                     f"{len(bin_err)} path(s) raise binascii.Error while building a frame from accepted arguments, e.g. at {o.value[3]} when {T.show(conj(o.state.pc[-2:]))[:300]}")
         else:
             rep.ok("R1.5", f"{op}", where_op, "no path raises binascii.Error under A1-A5")
+    foreign_sender_sweep(prog, rep, resolved_sites)
     rep.analysed["functions"] = sorted(funcs)
     rep.analysed["paths"] = total_paths
     rep.analysed["distinct_frames"] = len(seen)
